@@ -79,6 +79,42 @@ func (c *Ctx) errflowFunc(f *ssa.Function, exc map[string]string) {
 		}
 		c.bad(rule, key, pos, badMsg)
 	}
+	// R-deadwrap: an error value is constructed (fmt.Errorf / errors.New) and goes nowhere: its only
+	// referrers are phis that nothing reads. That is what `case err := <-ch: if err != nil { err =
+	// fmt.Errorf(...) }` compiles to when the `:=` shadows the function's err - the failure is wrapped
+	// carefully and then dropped, and the function returns its outer, still nil, err.
+	allInstrs(f, func(b *ssa.BasicBlock, in ssa.Instruction) {
+		cl, ok := in.(*ssa.Call)
+		if !ok {
+			return
+		}
+		q := callQName(&cl.Call)
+		if q != "fmt.Errorf" && q != "errors.New" && q != "errors.Join" {
+			return
+		}
+		var dead func(v ssa.Value, d int) bool
+		seen := map[ssa.Value]bool{}
+		dead = func(v ssa.Value, d int) bool {
+			if seen[v] || d > 6 {
+				return true
+			}
+			seen[v] = true
+			for _, r := range realRefs(v) {
+				ph, ok := r.(*ssa.Phi)
+				if !ok {
+					return false
+				}
+				if !dead(ph, d+1) {
+					return false
+				}
+			}
+			return true
+		}
+		if dead(cl, 0) {
+			key := mk("R-deadwrap", cl)
+			report("E2.R-deadwrap", key, cl.Pos(), "", true, fmt.Sprintf("%s builds an error with %s and assigns it to a variable nobody reads afterwards (a `:=` that shadows the function's err, or a dead assignment): the failure it describes is never returned", fnName(f), shortQ(q)))
+		}
+	})
 	allInstrs(f, func(b *ssa.BasicBlock, in ssa.Instruction) {
 		cl, ok := in.(*ssa.Call)
 		if !ok {
@@ -582,6 +618,57 @@ func retainsState(t types.Type, depth int) bool {
 // must be a fresh variable in every iteration when its type can retain state from the previous one.
 func (c *Ctx) freshDecodeTargets(rule string, rels ...string) int {
 	n := 0
+	// a decode target captured from the enclosing function is one object for every call of the
+	// closure: concurrent calls decode into each other, a later call sees the earlier one's fields
+	for _, f := range c.moduleFuncs(rels...) {
+		if f.Parent() == nil {
+			continue
+		}
+		allInstrs(f, func(b *ssa.BasicBlock, in ssa.Instruction) {
+			cl, ok := in.(*ssa.Call)
+			if !ok {
+				return
+			}
+			q := callQName(&cl.Call)
+			if q != modPath+"/tlb.Unmarshal" && q != modPath+"/tlb.Decoder.Unmarshal" && q != modPath+"/tl.Unmarshal" {
+				return
+			}
+			target := cl.Call.Args[len(cl.Call.Args)-1]
+			// follow the destination back through the reflect accessors; a reflect.New / new / local
+			// inside the closure is a fresh object (its TYPE may well come from a captured prototype)
+			shared := false
+			v := target
+			for k := 0; k < 8 && v != nil; k++ {
+				switch x := v.(type) {
+				case *ssa.MakeInterface:
+					v = x.X
+					continue
+				case *ssa.ChangeType:
+					v = x.X
+					continue
+				case *ssa.FreeVar:
+					shared = true
+				case *ssa.UnOp:
+					if x.Op == token.MUL {
+						if _, ok := x.X.(*ssa.FreeVar); ok {
+							shared = true
+						}
+					}
+				case *ssa.Call:
+					switch callQName(&x.Call) {
+					case "reflect.Value.Interface", "reflect.Value.Elem", "reflect.Value.Addr", "reflect.Indirect":
+						v = x.Call.Args[0]
+						continue
+					}
+				}
+				break
+			}
+			if shared {
+				n++
+				c.bad(rule, fmt.Sprintf("%s decodes into a value captured from the enclosing function", fnName(f)), cl.Pos(), fmt.Sprintf("%s hands the decoder a destination that was created once in the enclosing function and is shared by every call of this closure: two calls (two goroutines decoding requests of the same kind) write the same object, and what one returns can be the other's request", fnName(f)))
+			}
+		})
+	}
 	for _, f := range c.moduleFuncs(rels...) {
 		allInstrs(f, func(b *ssa.BasicBlock, in ssa.Instruction) {
 			cl, ok := in.(*ssa.Call)
@@ -674,7 +761,7 @@ func recvPath(p *ssa.Parameter, addr ssa.Value) (string, bool) {
 func (c *Ctx) partialAssign(rule string, rels ...string) int {
 	n := 0
 	for _, f := range c.moduleFuncs(rels...) {
-		if f.Name() != "UnmarshalTLB" || len(f.Params) == 0 || f.Parent() != nil {
+		if (f.Name() != "UnmarshalTLB" && f.Name() != "UnmarshalJSON" && f.Name() != "UnmarshalTL") || len(f.Params) == 0 || f.Parent() != nil {
 			continue
 		}
 		recv := f.Params[0]
@@ -697,10 +784,20 @@ func (c *Ctx) partialAssign(rule string, rels ...string) int {
 			}
 			groups[g][sub] = append(groups[g][sub], ev{b, in})
 		}
+		// a store of the WHOLE receiver (`*a = T{...}`, which go/ssa may turn into "zero *a, then store
+		// the literal's fields into *a") or of a whole group (`a.G = ...`) assigns every sub-field
+		var whole []ev
+		wholeGroup := map[string][]ev{}
 		allInstrs(f, func(b *ssa.BasicBlock, in ssa.Instruction) {
 			switch x := in.(type) {
 			case *ssa.Store:
+				if x.Addr == ssa.Value(recv) {
+					whole = append(whole, ev{b, in})
+				}
 				if p, ok := recvPath(recv, x.Addr); ok {
+					if !strings.Contains(p, ".") {
+						wholeGroup[p] = append(wholeGroup[p], ev{b, in})
+					}
 					add(p, b, in)
 				}
 			case *ssa.Call:
@@ -736,7 +833,13 @@ func (c *Ctx) partialAssign(rule string, rels ...string) int {
 						}
 					}
 				}
-				if len(have) == 0 || len(have) == len(subs) {
+				covered := false
+				for _, e := range append(append([]ev{}, whole...), wholeGroup[g]...) {
+					if e.blk == sp.Block || e.blk.Dominates(sp.Block) {
+						covered = true
+					}
+				}
+				if covered || len(have) == 0 || len(have) == len(subs) {
 					continue
 				}
 				for sub := range subs {
@@ -759,4 +862,85 @@ func sortedKeys[T any](m map[string]T) []string {
 	}
 	sort.Strings(out)
 	return out
+}
+
+// fieldwiseCopy: a method that copies another value of its receiver's type into the receiver field
+// by field (recv.a = src.a; recv.b = src.b ...) copies - or deliberately sets - EVERY field. The
+// whole-value form `*recv = *src` cannot forget one; the field-wise form can, and the forgotten
+// field keeps the receiver's previous (usually zero) value: a cell decoded from JSON loses its
+// level mask and hashes as a different cell.
+func (c *Ctx) fieldwiseCopy(rule string, rels ...string) int {
+	n := 0
+	for _, f := range c.moduleFuncs(rels...) {
+		if len(f.Params) == 0 || f.Signature.Recv() == nil || f.Parent() != nil {
+			continue
+		}
+		recv := ssa.Value(f.Params[0])
+		pt, ok := recv.Type().Underlying().(*types.Pointer)
+		if !ok {
+			continue
+		}
+		st, ok := pt.Elem().Underlying().(*types.Struct)
+		if !ok || st.NumFields() < 3 {
+			continue
+		}
+		copied := map[ssa.Value]map[int]bool{} // source base -> fields copied from it
+		assigned := map[int]bool{}
+		allInstrs(f, func(_ *ssa.BasicBlock, in ssa.Instruction) {
+			s, ok := in.(*ssa.Store)
+			if !ok {
+				return
+			}
+			fa, ok := s.Addr.(*ssa.FieldAddr)
+			if !ok || fa.X != recv {
+				return
+			}
+			assigned[fa.Field] = true
+			if ld, ok := s.Val.(*ssa.UnOp); ok && ld.Op == token.MUL {
+				if sfa, ok := ld.X.(*ssa.FieldAddr); ok && sfa.Field == fa.Field && sfa.X != recv && types.Identical(sfa.X.Type(), recv.Type()) {
+					if copied[sfa.X] == nil {
+						copied[sfa.X] = map[int]bool{}
+					}
+					copied[sfa.X][fa.Field] = true
+				}
+			}
+		})
+		// calls on the receiver that reset fields (ResetCounters and the like) count as assignments
+		allInstrs(f, func(_ *ssa.BasicBlock, in ssa.Instruction) {
+			cl, ok := in.(*ssa.Call)
+			if !ok {
+				return
+			}
+			sc := cl.Call.StaticCallee()
+			if sc == nil || !inModule(sc) || len(cl.Call.Args) == 0 || cl.Call.Args[0] != recv || len(sc.Params) == 0 {
+				return
+			}
+			r2 := ssa.Value(sc.Params[0])
+			allInstrs(sc, func(_ *ssa.BasicBlock, in2 ssa.Instruction) {
+				if s2, ok := in2.(*ssa.Store); ok {
+					if fa2, ok := s2.Addr.(*ssa.FieldAddr); ok {
+						if fa2.X == r2 {
+							assigned[fa2.Field] = true
+						} else if inner, ok := fa2.X.(*ssa.FieldAddr); ok && inner.X == r2 {
+							assigned[inner.Field] = true
+						}
+					}
+				}
+			})
+		})
+		for _, fields := range copied {
+			if len(fields) < 2 {
+				continue
+			}
+			n++
+			var missing []string
+			for i := 0; i < st.NumFields(); i++ {
+				if !assigned[i] {
+					missing = append(missing, st.Field(i).Name())
+				}
+			}
+			c.check(len(missing) == 0, rule, fnName(f)+": field-wise copy covers every field", f.Pos(), fmt.Sprintf("%d fields copied, all %d assigned", len(fields), st.NumFields()), fmt.Sprintf("%s copies %d fields of another value into its receiver one by one but never assigns %s: the copy silently differs from the original in that field (a decoded cell without its level mask has another hash and level)", fnName(f), len(fields), strings.Join(missing, ", ")))
+		}
+	}
+	return n
 }
